@@ -24,6 +24,17 @@ CLAIMED = {
              "not a theorem.",
         note=TRUST + " `Violates` (the documented rule list) is my reading of the docstring/property text.",
         ref="§4 C20"),
+    "C16": dict(
+        technique="Lean 4 theorems (worklist invariant, confluence) about a line-by-line model of Circuit.remove_unloaded "
+                  "+ exact differential correspondence (removed list and resulting graph) + reachability-oracle search",
+        text="Proof: `remove_unloaded_exact` (for every acyclic legally wired circuit, both values of `inputs` and every "
+             "set-iteration order the worklist terminates and deletes exactly the nodes from which no output/blackbox-input "
+             "pin is reachable and that the flag allows; the returned list is that set), `survivors_untouched`, "
+             "`consistent_preserved`, `inputs_false_keeps_inputs`, `idempotent`, `order_irrelevant` — unbounded, by a loop "
+             "invariant. The model's type lists are regenerated from circuit.py each run; the model is tied to the code by "
+             "comparing the removal order and the resulting graph on generated circuits under controlled set orders.",
+        note=TRUST + " Hypothesis `Good`: acyclic, no fan-in on inputs/blackbox outputs, no fan-out from blackbox inputs.",
+        ref="§4 C16"),
 }
 
 NOT_YET = "check not built yet in this round (see DESIGN.md §4 for the plan); will be claimed when its Lean model and harness exist"
